@@ -39,6 +39,20 @@ def budget(tier):
     return 400 if tier == "quick" else 6400
 
 
+def observers(draw):
+    """components every job carries so that per-file state that may leak between jobs is visible
+    in the result tuple (this property needs no model, so functions outside the modelled set are fine)"""
+    comps = [["f", "push", [], [["t", "o_tl"], ["f", "total_lines", [], []]]],
+             ["f", "push", [], [["t", "o_hc"], ["f", "count_headers", [], []]]],
+             ["f", "push", [], [["t", "o_cl"], ["f", "count_lines", [], []]]]]
+    k = draw(st.sampled_from(["none", "none", "append", "reset"]))
+    if k == "append":
+        comps.append(["f", "append", [], [["t", "extra"], ["hi", 0]]])
+    elif k == "reset":
+        comps.append(["->", ["==", ["f", "line_number", [], []], ["t", 2]], ["f", "reset_headers", [], []]])
+    return comps
+
+
 @st.composite
 def _case(draw):
     nfiles = draw(st.integers(1, 3))
@@ -67,6 +81,7 @@ def _case(draw):
         t = tables[k]
         prog = draw(progs.programs(t, kinds=("b", "b", "assign", "when", "se", "print", "first"), max_comps=3, depth=2))
         prog["comps"] = c20.by_index(prog["comps"], t["cols"])
+        prog["comps"] = observers(draw) + prog["comps"]
         jobs.append({"file": k, "prog": prog, "scan": draw(progs.scans(t)), "via": draw(st.sampled_from(["CsvPath", "CsvPaths", "CsvPaths"]))})
     rewrite = None
     if draw(st.integers(0, 3)) == 2 and njobs >= 2:
@@ -78,7 +93,7 @@ def _case(draw):
         for j in range(at, njobs):
             if jobs[j]["file"] == k:
                 prog = draw(progs.programs(t2, kinds=("b", "assign", "se"), max_comps=2, depth=1))
-                prog["comps"] = c20.by_index(prog["comps"], t2["cols"])
+                prog["comps"] = observers(draw) + c20.by_index(prog["comps"], t2["cols"])
                 jobs[j] = {"file": k, "prog": prog, "scan": draw(progs.scans(t2)), "via": draw(st.sampled_from(["CsvPath", "CsvPaths", "CsvPaths"]))}
     return {"files": files, "jobs": jobs, "warm": draw(st.booleans()), "repeat": draw(st.integers(0, njobs - 1)), "rewrite": rewrite}
 
